@@ -37,6 +37,10 @@ func (w *World) ledgerPrefix() ([]Op, map[string]TransferSpec) {
 	// a fee paid to a MODULE address that no account object exists for yet (the dust collector is created lazily by
 	// the first sweep): histories continue from the state in which the fee action has created an account there
 	addT(TransferSpec{"channel-0", denomUSDC, "400", orb, w.FwdInternal(w.Bob), []FeeSpec{{To: w.Dust.String(), Fixed: "1"}}})
+	// magnitudes: a stray balance of 2^63-1 in an 18-decimal style denomination, and a transfer in that denomination (it sweeps
+	// the stray balance: the dust collector then holds an amount at the edge of the 64-bit range)
+	addT(TransferSpec{"channel-0", denomBIG2, "1000", orb, w.FwdInternal(w.Bob), nil})
+	ops = append(ops, w.OpDeposit(w.Orb, denomBIG2, 9223372036854775807))
 	ops = append(ops,
 		w.OpDeposit(w.Orb, denomUSDC, 5),
 		w.OpDeposit(w.Orb, denomOTH, 3),
